@@ -52,6 +52,19 @@ def shared_snapshot():
             d = getattr(loc, attr, None)
             if d is not None:
                 snap["Locale[%s].%s._settings" % (name, attr)] = id(getattr(d, "_settings", None))
+    # every module-level singleton of the library (parser objects etc.): a field written there is visible to every thread
+    import types
+    for mname, mod in list(sys.modules.items()):
+        if not mname.startswith("dateparser") or mod is None:
+            continue
+        for name, val in list(vars(mod).items()):
+            cls = type(val)
+            if isinstance(val, (type, types.ModuleType, types.FunctionType)) or not getattr(cls, "__module__", "").startswith("dateparser"):
+                continue
+            if cls.__name__ in ("Settings",) or not hasattr(val, "__dict__"):
+                continue
+            for f, v in list(vars(val).items()):
+                snap["Singleton[%s.%s].%s" % (mname, name, f)] = repr(v) if isinstance(v, (int, str, bool, float, type(None), datetime.datetime, datetime.timedelta)) else id(v)
     return snap
 
 
@@ -125,6 +138,9 @@ def main():
         ra0, rb0 = do_call(A), do_call(B)
         n = count_lines(A)
         ks = range(1, n + 1, job.get("stride", 1)) if job.get("ks") is None else job["ks"]
+        if job.get("part"):
+            i, m = job["part"]
+            ks = list(ks)[i::m]
     else:
         ra0 = rb0 = None
         n = None
